@@ -32,7 +32,7 @@ func init() {
 		Shrink: shrinkC05,
 		Finish: func(st *Stats, cov map[string]any, tier string) string {
 			probes := map[string]int{}
-			for _, p := range []string{"probe:rejected_row_between_returned_rows", "probe:alias_referenced_twice", "probe:cache_hits>0", "probe:mget_path_with_alias_filter", "probe:alias_inside_rowwise_wrapper", "probe:alias_in_order_by", "probe:alias_in_group_by"} {
+			for _, p := range []string{"probe:rejected_row_between_returned_rows", "probe:alias_referenced_twice", "probe:cache_hits>0", "probe:mget_path_with_alias_filter", "probe:alias_inside_rowwise_wrapper", "probe:alias_in_order_by", "probe:alias_in_group_by", "probe:polled_on_after_an_error"} {
 				probes[p] = st.Counters[p]
 			}
 			cov["probes"] = probes
@@ -50,6 +50,9 @@ func init() {
 
 func genC05(seed uint64, i int, tier string) *Scenario {
 	r := NewRng(seed)
+	if i%8 == 7 {
+		return genC05KeepGoing(r)
+	}
 	style := pick(r, []string{StoreMixed, StoreInts, StoreNum, StoreText, StoreInts})
 	g := newGen(r, style)
 	// alias use is the point of this property
@@ -75,6 +78,53 @@ func genC05(seed uint64, i int, tier string) *Scenario {
 	sc.Q = q
 	sc.Clients = []Client{{Stmts: []Stmt{{Text: q.Render(false)}}}}
 	return sc
+}
+
+// genC05KeepGoing: queries whose evaluation fails on some rows (division by a
+// row-dependent zero), drained by a caller that polls on after an error. Only
+// the cache-invisibility sub-check applies (same query, same plan, both sides).
+func genC05KeepGoing(r *Rng) *Scenario {
+	style := pick(r, []string{StoreInts, StoreNum, StoreMixed})
+	g := newGen(r, style)
+	g.feat["alias-where"] = true
+	g.feat["alias-arg"] = true
+	g.feat["arith-int"] = true
+	g.feat["convfuncs"] = true
+	g.feat["json"] = false
+	g.feat["group"] = false
+	g.feat["order"] = false
+	b := pickBatch(r)
+	sc := &Scenario{Family: "keep-going", Cfg: Config{Batch: b, Alias: r.Chance(0.3), Lazy: r.Chance(0.3)}}
+	sc.Init = genStoreFor(r, b, style)
+	q := g.Select(true)
+	// conjoin an atom that fails on the rows whose value is the chosen integer
+	z := pick(r, []string{"0", "1", "2", "3", "5"})
+	div := bin(TN, "/", ilit(12), bin(TN, "-", call(TN, "int", &GExpr{Kind: "value", T: TS}), ilit(atoiOr(z, 0))))
+	var ref *GExpr = div
+	if len(g.aliases) > 0 && r.Bool() {
+		for _, a := range g.aliases {
+			if a.t == TN {
+				ref = bin(TN, "+", div, &GExpr{Kind: "alias", T: TN, S: a.name, NK: a.nk})
+				break
+			}
+		}
+	}
+	q.Where = bin(TB, pick(r, []string{"&", "and"}), q.Where, bin(TB, "<", ref, ilit(1000)))
+	q.HasLimit = false
+	sc.Q = q
+	sc.Clients = []Client{{Stmts: []Stmt{{Text: q.Render(false), KeepGoing: 6}}}}
+	return sc
+}
+
+func atoiOr(s string, d int) int {
+	n := 0
+	for i := 0; i < len(s); i++ {
+		if s[i] < '0' || s[i] > '9' {
+			return d
+		}
+		n = n*10 + int(s[i]-'0')
+	}
+	return n
 }
 
 type c05cell struct {
@@ -122,13 +172,17 @@ func runC05(sc *Scenario, st *Stats) []Violation {
 	text := q.Render(false)
 	textX := q.Render(true)
 	oc := orderColsOf(q)
+	keepGoing := 0
+	if len(sc.Clients) > 0 && len(sc.Clients[0].Stmts) > 0 {
+		keepGoing = sc.Clients[0].Stmts[0].KeepGoing
+	}
 	res := map[c05cell]*StmtRes{}
 	resX := map[c05cell]*StmtRes{}
 	var refWorld *World
 	for _, c := range c05cells {
 		cfg := sc.Cfg
 		cfg.Cache = c.cache
-		w, rs := runStmts(sc, cfg, []Stmt{{Text: text, Mode: c.mode}}, nil)
+		w, rs := runStmts(sc, cfg, []Stmt{{Text: text, Mode: c.mode, KeepGoing: keepGoing}}, nil)
 		st.noteRun(w, rs)
 		r := rs[0]
 		res[c] = &r
@@ -174,6 +228,16 @@ func runC05(sc *Scenario, st *Stats) []Violation {
 	}
 	if len(vs) > 0 {
 		return vs
+	}
+	if keepGoing > 0 {
+		st.Inc("keep_going_cases")
+		for _, row := range ref.Rows {
+			if len(row) == 1 && row[0] == "!error" {
+				st.Inc("probe:polled_on_after_an_error")
+				break
+			}
+		}
+		return nil
 	}
 	// (2) abbreviation: Q vs Q' in every cell
 	if textX != text {
